@@ -424,6 +424,12 @@ def _x86_returns(ctx, f, flow, pa, pb, tname, vcls, spec):
                         ".name" in x for x in flow.origin_text(side)):
                     continue  # e.g. the loop variable over alias groups
                 base = side.value if isinstance(side, ast.Subscript) else side
+                # a look-up keyed by the name (family table): the key is what must be normalised
+                lk = flow.subst(side) if isinstance(side, ast.Name) else side
+                if isinstance(lk, ast.Call) and isinstance(lk.func, ast.Attribute) and lk.func.attr == "get" and lk.args:
+                    base = lk.args[0]
+                elif isinstance(lk, ast.Subscript) and isinstance(lk.slice, ast.Name):
+                    base = lk.slice
                 ok = _norm_origin(flow, base)
                 ctx.check(ok, "R3", "operand %s of `%s` is case-normalised" % (t, U(n)), f.where(n),
                           "operand %s of the comparison `%s` derives from a register name that was not passed "
